@@ -584,7 +584,11 @@ func (t *WeightedMerkleTrie) collectDeleteAndCreated(deleteChan, createdChan cha
 			copy(k[:], hash)
 			delete(t.deleted, k)
 			t.saved = append(t.saved, hash)
-			t.created = append(t.created, hash)
+			// only a node that storage does not hold yet is created by this commit
+			// (nodes are content addressed: an unchanged or re-added node keeps its hash)
+			if _, err := t.db.Get(hash); err != nil {
+				t.created = append(t.created, hash)
+			}
 		}
 		wg.Done()
 	}()
